@@ -105,7 +105,7 @@ theorem gap_left {f : Forest} {a b q : Nat} {vq : Value} {l1 l2 r0 : List HTree}
       simp
     · apply final_alive sq _ hPn htn htx
       intro z
-      simp only [handlesList_append, handlesList_cons, List.count_append]
+      simp only [fs_handlesList_append, handlesList_cons, List.count_append]
       omega
   · -- the two text neighbours `u`, `v` of `t` are merged into `u`
     subst eX
@@ -142,9 +142,9 @@ theorem gap_left {f : Forest} {a b q : Nat} {vq : Value} {l1 l2 r0 : List HTree}
         · exact handle_mem_handlesList (by simp)
         · intro hmem
           have h1 := (List.nodup_iff_count.1 ndL) P.handle
-          have h2 : 0 < (handles P).count P.handle := List.count_pos_iff.2 (handle_mem_handles P)
+          have h2 : 0 < (handles P).count P.handle := List.count_pos_iff.2 (fs_handle_mem_handles P)
           have h3 := List.count_pos_iff.2 hmem
-          simp only [handlesList_append, handlesList_cons, handlesList_nil, List.count_append,
+          simp only [fs_handlesList_append, handlesList_cons, handlesList_nil, List.count_append,
             setValue_handles, List.count_nil] at h1 h3
           omega
     | cons v0 l2' =>
@@ -173,7 +173,7 @@ theorem gap_left {f : Forest} {a b q : Nat} {vq : Value} {l1 l2 r0 : List HTree}
         simp
       · apply final_alive sq _ hPn htn htx
         intro z
-        simp only [handlesList_append, handlesList_cons, List.count_append, setValue_handles,
+        simp only [fs_handlesList_append, handlesList_cons, List.count_append, setValue_handles,
           handlesList_nil, List.count_nil]
         omega
 
@@ -272,7 +272,7 @@ theorem gap_right {f : Forest} {a b q : Nat} {vq : Value} {l0 W r1 r2 : List HTr
       simp
     · apply final_alive sq _ hPn htn htx
       intro z
-      simp only [handlesList_append, handlesList_cons, List.count_append]
+      simp only [fs_handlesList_append, handlesList_cons, List.count_append]
       omega
   · -- the two text neighbours `u`, `v` of `t` are merged into `u`
     subst eZ
@@ -297,7 +297,7 @@ theorem gap_right {f : Forest} {a b q : Nat} {vq : Value} {l0 W r1 r2 : List HTr
       simp
     · apply final_alive sq _ hPn htn htx
       intro z
-      simp only [handlesList_append, handlesList_cons, List.count_append, setValue_handles,
+      simp only [fs_handlesList_append, handlesList_cons, List.count_append, setValue_handles,
         handlesList_nil, List.count_nil]
       omega
 
